@@ -265,6 +265,14 @@ pub enum Value {
 }
 
 impl Value {
+    /// height of the expression tree: the number of nested calls / brackets
+    pub fn depth(&self) -> usize {
+        match self {
+            Self::OpCall(c) => c.depth,
+            Self::Array(a) | Self::Tuple(a) => 1 + a.iter().map(Value::depth).max().unwrap_or(0),
+            _ => 0,
+        }
+    }
     // fn unsafe_clone(&self) -> Value {
     //     unsafe { std::mem::transmute(self.clone()) }
     // }
@@ -496,6 +504,8 @@ impl std::fmt::Display for Value {
 pub struct Call {
     func: Value,
     args: Vec<Value>,
+    // height of the expression tree below this call
+    depth: usize,
 }
 impl std::fmt::Display for Call {
     fn fmt(&self, f: &mut std::fmt::Formatter<'_>) -> std::fmt::Result {
@@ -514,8 +524,9 @@ impl std::fmt::Display for Call {
 
 impl Call {
     pub fn new(mut args: Vec<Value>) -> Self {
+        let depth = 1 + args.iter().map(Value::depth).max().unwrap_or(0);
         let func = args.remove(0);
-        Self { func, args }
+        Self { func, args, depth }
     }
     fn signature(&self, ctx: ScriptContextRef) -> Result<Type, Error> {
         let func = self.func(ctx.clone())?;
